@@ -331,6 +331,35 @@ def _attr_object_types(P, cn, attr):
     return out
 
 
+def _is_container_attr(P, cn, attr):
+    """the attribute is stored (somewhere in the class hierarchy) from a list
+    display, list(...), a comprehension, or a parameter whose default is a
+    list: a mutable sequence owned by the object"""
+    if cn not in P.classes:
+        return False
+    for k in P.mro(cn):
+        for m in P.classes[k].methods.values():
+            defaults = {}
+            a = m.node.args
+            for arg, d in zip(a.args[len(a.args) - len(a.defaults):],
+                              a.defaults):
+                defaults[arg.arg] = d
+            for st in ast.walk(m.node):
+                if isinstance(st, ast.Assign) and isinstance(
+                        st.targets[0], ast.Attribute) and \
+                        unparse(st.targets[0].value) == 'self' and \
+                        st.targets[0].attr == attr:
+                    v = st.value
+                    if isinstance(v, (ast.List, ast.ListComp)):
+                        return True
+                    if isinstance(v, ast.Call) and unparse(v.func) == 'list':
+                        return True
+                    if isinstance(v, ast.Name) and isinstance(
+                            defaults.get(v.id), ast.List):
+                        return True
+    return False
+
+
 def s3_plain(ctx):
     P = ctx.P
     res = Result('S3-PLAIN', 'values written by to_dict are JSON-plain: '
@@ -354,6 +383,16 @@ def s3_plain(ctx):
                 if types:
                     bad = (f'self.{vv.attr} may hold a {sorted(types)} object, '
                            f'written without .to_dict()')
+                elif _is_container_attr(P, f.cls, vv.attr) or \
+                        _is_container_attr(P, cn, vv.attr):
+                    res.fail(ctx.finding(
+                        'S3-PLAIN', f, v,
+                        f'{f.cls}.to_dict key {key!r} hands out the live '
+                        f'list self.{vv.attr}: editing the dictionary (or '
+                        f'the lens) afterwards edits the other, and a lens '
+                        f'rebuilt from it shares the list with the original',
+                        construct=f'{f.cls} {key!r} live container'))
+                    continue
             if bad:
                 res.fail(ctx.finding(
                     'S3-PLAIN', f, v,
@@ -877,5 +916,12 @@ def derived_sync_rule(ctx):
     from .common import derived_sync
     return derived_sync(ctx, 'DERIVED-SYNC')
 
-RULES = [derived_sync_rule, c12_arg_names, fresh_load, s1_keys, s2_roundtrip, s3_plain, s4_arity, s5_none, s6_optic,
+def c01_init_stores(ctx):
+    """shared with C01: constructors keep private, float-typed copies of the
+    coefficient containers they are given (no aliasing of caller lists or of
+    the shared default, no integer tables)"""
+    from .C01 import init_stores as _r
+    return _r(ctx)
+
+RULES = [c01_init_stores, derived_sync_rule, c12_arg_names, fresh_load, s1_keys, s2_roundtrip, s3_plain, s4_arity, s5_none, s6_optic,
          s7_kwargs, plain_store, file_wrapper]
